@@ -161,7 +161,7 @@ def live(sid, I, T, pattern, window_intervals=10):
     return {"id": sid, "kind": "iscp", "conn": {"pingMs": [I, T]}, "p": params(I, T), "steps": steps}
 
 
-def silent_mid(sid, I, T, k, frac, full, app, bping=False, close_delay=0):
+def silent_mid(sid, I, T, k, frac, full, app, bping=False, close_delay=0, stray=0):
     """the broker falls silent frac/4 of an interval after its k-th pong (k = 0: after the handshake); full = it answers
     nothing at all any more (the redial is then held at a gate until the broker talks again); app = an application
     request is in flight when the client gives up"""
@@ -179,6 +179,10 @@ def silent_mid(sid, I, T, k, frac, full, app, bping=False, close_delay=0):
         steps += [{"a": "dialPlan", "dial": [{"do": "ok", "gate": "redial"}]}, {"a": "silent"}]
     else:
         steps.append({"a": "pongOff"})
+    if stray:
+        # a Pong nobody waits for (a duplicate of the last answer / an id never issued) arrives after the broker's last real answer: it is
+        # not the answer to the NEXT ping
+        steps.append({"a": "strayPong", "tag": 0 if stray == 1 else 99990})
     if app:
         steps.append({"a": "sendMeta", "g": "A", "tag": 9, "ctxMs": 4000})
     steps.append({"a": "await", "ev": "BLinkDown", "match": {"c": 1, "cause": "clientClosed"}, "ms": detect_wait(I, T) + I})
@@ -315,6 +319,10 @@ def run():
         for k in ([1] if quick else [0, 1, 3]):
             for app in (False, True):
                 scs.append(silent_mid("C15/slowclose/%d-%d/k%d-%s" % (I, T, k, "app" if app else "idle"), I, T, k, 2, False, app, close_delay=1200))
+        if I == 200:
+            # interval 1 s / timeout 100 ms: one interval of undetected silence lies well beyond the slack
+            for stray in (1, 2):
+                scs.append(silent_mid("C15/straypong/1000-100/k1-%s" % ("dup" if stray == 1 else "unknown"), 1000, 100, 1, 1, False, False, stray=stray))
         for k, fails in ([(1, 1)] if quick else [(0, 1), (1, 1), (1, 2), (3, 1)]):
             scs.append(dial_fail("C15/dialfail/%d-%d/k%d-f%d" % (I, T, k, fails), I, T, k, fails))
         scs.append(bping_burst("C15/bping/%d-%d/16" % (I, T), I, T, 16))
